@@ -50,9 +50,7 @@ def template_init(with_pdks=False):
     # the PDK registry starts empty: registration is a scheduled operation
     from hdl21.pdk import pdk as _pdk
 
-    _pdk._mgr.modules.clear()
-    _pdk._mgr.names.clear()
-    _pdk._mgr.default = None
+    _TEMPLATE["pdk_registry_reset"] = reset_pdk_registry(_pdk)
     gc.collect()
     gc.disable()
     gc.freeze()
@@ -62,6 +60,36 @@ def template_init(with_pdks=False):
 
 class ChildFailure(Exception):
     pass
+
+
+def reset_pdk_registry(_pdk):
+    """Empty the library's PDK registry.  There is no public call for it, and what the private
+    manager object is called is the library's business: every module-level object of
+    `hdl21.pdk.pdk` whose attributes are containers of python modules (or a python module: the
+    default) is emptied.  Returns True if something that looks like the registry was found."""
+    import types
+
+    found = False
+    for name, obj in list(vars(_pdk).items()):
+        if name.startswith("__") or isinstance(obj, (types.ModuleType, type, types.FunctionType)):
+            continue
+        d = getattr(obj, "__dict__", None)
+        if not isinstance(d, dict):
+            continue
+        ismod = lambda x: isinstance(x, types.ModuleType)  # noqa
+        for k, v in list(d.items()):
+            if isinstance(v, (set, list)) and all(ismod(x) for x in v):
+                v.clear()
+                found = True
+            elif isinstance(v, dict) and all(ismod(x) for x in v.values()) and all(isinstance(x, str) for x in v):
+                v.clear()
+                found = True
+            elif ismod(v):
+                try:
+                    setattr(obj, k, None)
+                except Exception:  # noqa
+                    pass
+    return found
 
 
 def in_child(fn, arg, timeout=60.0):
